@@ -52,6 +52,7 @@ class TimerWorld(pipe.PipeWorld):
         self.defer_log = []  # (instant, {algorithm: scheduler status at that evaluation})
         self.defer_timers = []
         self.loads = []
+        self.event_since = {}  # events added by a software update -> when the release declaring them was loaded
 
     def build(self):
         import dawgie.pl.farm as farm
@@ -115,10 +116,26 @@ class TimerWorld(pipe.PipeWorld):
         schedule.defer = defer
 
     def commit_update(self):
-        """a software update keeps the event declarations"""
+        """a software update keeps the event declarations; one time in two the new release declares one more event,
+        due sooner than anything the running timer chain can know of"""
         if getattr(self, 'pending', None) is not None:
-            self.pending.events = list(self.spec.events)
+            evs = list(self.spec.events)
+            algs = [a for a in self.pending.algs if a.full in self.spec.by]
+            if algs and self.ch.flip('ev.added_by_update', 1, 2):
+                now = boot.now_dt()
+                a = algs[self.ch.choose('ev.alg', len(algs))]
+                due = now + _dt.timedelta(seconds=[900, 4000, 30000, 2 * 86400][self.ch.choose('ev.sooner', 4)])
+                tod = (due.hour, due.minute, due.second)
+                e = (a.full, 'dow', due.weekday(), tod) if self.ch.flip('ev.added_kind', 1, 2) else (a.full, 'dom', due.day, tod)
+                if e not in evs:
+                    evs.append(e)
+                    self.event_since[e] = now
+                    self.probes['event_added_by_update'] += 1
+                    self.op(f'the new release declares one more event: {e}')
+            self.pending.events = evs
         return super().commit_update()
+
+    event_since = None
 
     def on_build(self, latest, previous, persisted):
         super().on_build(latest, previous, persisted)
@@ -169,8 +186,10 @@ class TimerWorld(pipe.PipeWorld):
         new_timers = [dc for dc in sim.timers if dc not in timers0]
         self.defer_timers = [dc for dc in self.defer_timers if dc.active()] + new_timers
         # the timer armed by this evaluation must not sleep past the next occurrence of an event it has just evaluated
-        if new_timers and err is None:
-            wake = self.t0 + _dt.timedelta(seconds=min(dc.getTime() for dc in new_timers) + boot._state['skew'])
+        active = [dc for dc in self.defer_timers if dc.active()]
+        if active and err is None and not schedule.is_paused():
+            # (no active timer at all is the known re-arm finding, reported at the end of the run)
+            wake = self.t0 + _dt.timedelta(seconds=min(dc.getTime() for dc in active) + boot._state['skew'])
             status = self.defer_log[-1][1]
             for ev in self.spec.events:
                 tag = ev[0]
@@ -180,8 +199,8 @@ class TimerWorld(pipe.PipeWorld):
                 if not nxt or (nxt[0] - now).total_seconds() <= WINDOW:
                     continue  # due at this evaluation: what happens to its *next* occurrence belongs to the known re-arm finding
                 if (wake - nxt[0]).total_seconds() > 1.0:
-                    self.violate('C20', 'timer_sleeps_past_event', ev[1],
-                                 f'evaluated at {now.isoformat()}: the timer was armed for {wake.isoformat()}, later than the next occurrence '
+                    self.violate('C20', 'timer_sleeps_past_event', ev[1] + ('' if new_timers else ':no_new_timer'),
+                                 f'evaluated at {now.isoformat()}: the earliest armed timer wakes at {wake.isoformat()}, later than the next occurrence '
                                  f'{nxt[0].isoformat()} of {ev} (which was evaluated, not skipped)')
         if err is not None:
             self.probes['defer_raised'] += 1
@@ -241,7 +260,8 @@ class TimerWorld(pipe.PipeWorld):
             by_alg.setdefault(ev[0], []).append(ev)
         for alg, evs in sorted(by_alg.items()):
             times = fired.get(alg, [])
-            occ = sorted(x for ev in evs for x in occurrences(ev, self.t0 - _dt.timedelta(seconds=WINDOW), end - _dt.timedelta(seconds=2 * WINDOW)))
+            occ = sorted(x for ev in evs for x in occurrences(ev, (self.event_since[ev] + _dt.timedelta(seconds=WINDOW)) if ev in self.event_since
+                                                              else (self.t0 - _dt.timedelta(seconds=WINDOW)), end - _dt.timedelta(seconds=2 * WINDOW)))
             boots = [ev for ev in evs if ev[1] == 'boot']
             # every firing lands on a moment: within the window before an occurrence (or a boot firing at a load)
             for t in times:
